@@ -209,7 +209,7 @@ func (r *Run) Finish() {
 	if r.Assumptions == nil {
 		ev["assumptions"] = []string{}
 	}
-	if r.Replay == "" {
+	if r.Replay == "" && os.Getenv("VERIF_NO_EVIDENCE") == "" {
 		b, _ := json.MarshalIndent(ev, "", " ")
 		os.MkdirAll(filepath.Join(Root, "evidence"), 0o755)
 		if err := os.WriteFile(filepath.Join(Root, "evidence", r.ID+".json"), append(b, '\n'), 0o644); err != nil {
